@@ -63,8 +63,9 @@ type c11Family struct {
 }
 
 type c11World struct {
-	Family string               `json:"family"`
-	Tables map[string][]c11Row `json:"tables"`
+	Family   string               `json:"family"`
+	Tables   map[string][]c11Row `json:"tables"`
+	unscoped bool                 // the operation runs under db.Unscoped(): the soft-delete scope is "every row"
 }
 
 var c11Families = map[string]*c11Family{}
@@ -221,7 +222,7 @@ func c11Match(pairs [][2]string, a, b c11Row) bool {
 func (w c11World) children(rel *c11RelD, p c11Row, cond c11Cond) []c11Row {
 	var out []c11Row
 	for _, c := range w.Tables[rel.Child] {
-		if !c11Live(c) || !cond.ok(c11N(c)) {
+		if (!w.unscoped && !c11Live(c)) || !cond.ok(c11N(c)) {
 			continue
 		}
 		okc := true
@@ -339,6 +340,10 @@ type c11Op struct {
 	Rel    string     `json:"rel,omitempty"` // assoc
 	Cond   c11Cond    `json:"cond"`
 	Count  bool       `json:"count,omitempty"`
+	// query, shape single, no joins: the destination struct is loaded twice (first with the same paths without
+	// conditions), so the second load must replace, not extend, what the struct already carries
+	Twice    bool `json:"twice,omitempty"`
+	Unscoped bool `json:"unscoped,omitempty"` // db.Unscoped(): soft-deleted parents / children are part of the result
 }
 
 type c11Case struct {
@@ -515,6 +520,24 @@ func (f *c11Family) innerOK(w c11World, t *c11Table, row c11Row, nodes []*c11Nod
 	return true
 }
 
+// a to-one relation with several candidate rows (possible only under Unscoped: one live row plus soft-deleted ones):
+// which candidate is loaded is not defined by the property; such cases are not judged
+func (f *c11Family) ambiguous(w c11World, t *c11Table, row c11Row, nodes []*c11Node) bool {
+	for _, nd := range nodes {
+		rel := t.rel(nd.Rel)
+		cs := w.children(rel, row, nd.Cond)
+		if rel.Single && len(cs) > 1 {
+			return true
+		}
+		for _, c := range cs {
+			if f.ambiguous(w, f.table(rel.Child), c, nd.Kids) {
+				return true
+			}
+		}
+	}
+	return false
+}
+
 func c11HasInner(nodes []*c11Node) bool {
 	for _, nd := range nodes {
 		if nd.Join && (nd.Inner || c11HasInner(nd.Kids)) {
@@ -565,7 +588,7 @@ func c11ViewV(v reflect.Value, nodes []*c11Node) string {
 func (w c11World) selected(t *c11Table, sel c11Cond) []c11Row {
 	var out []c11Row
 	for _, r := range w.Tables[t.Name] {
-		if c11Live(r) && sel.ok(c11N(r)) {
+		if (w.unscoped || c11Live(r)) && sel.ok(c11N(r)) {
 			out = append(out, r)
 		}
 	}
@@ -597,9 +620,13 @@ func c11RunCase(cs c11Case) (got, want []string, err error) {
 	}()
 	t := f.table(cs.Op.Parent)
 	w, op := cs.World, cs.Op
+	w.unscoped = op.Unscoped
 	qn := "`" + t.Name + "`.`n`"
 	base := func() *gorm.DB {
 		q := db.Session(&gorm.Session{})
+		if op.Unscoped {
+			q = q.Unscoped()
+		}
 		if op.PSel.Kind != "" {
 			s, a := op.PSel.sql(qn)
 			q = q.Where(s, a...)
@@ -624,6 +651,11 @@ func c11RunCase(cs c11Case) (got, want []string, err error) {
 		switch op.Shape {
 		case "single":
 			one := reflect.New(t.typ())
+			if op.Twice && !op.All && !c11HasJoin(nodes) {
+				if e := f.applyNodes(db, base(), t, nil, c11StripConds(nodes)).First(one.Interface()).Error; e != nil && !errors.Is(e, gorm.ErrRecordNotFound) {
+					return nil, nil, e
+				}
+			}
 			e := q.First(one.Interface()).Error
 			if errors.Is(e, gorm.ErrRecordNotFound) {
 				e = nil
@@ -657,6 +689,9 @@ func c11RunCase(cs c11Case) (got, want []string, err error) {
 			got = append(got, c11ViewV(v, nodes))
 		}
 		for _, r := range sel {
+			if w.unscoped && f.ambiguous(w, t, r, nodes) {
+				return nil, nil, nil
+			}
 			if !f.innerOK(w, t, r, nodes) {
 				continue
 			}
@@ -703,6 +738,9 @@ func c11RunCase(cs c11Case) (got, want []string, err error) {
 			model = ps.Interface()
 		}
 		tx := db.Model(model)
+		if op.Unscoped {
+			tx = db.Unscoped().Model(model)
+		}
 		var inline []interface{}
 		if op.Cond.Kind != "" {
 			s, a := op.Cond.sql("`" + ct.Name + "`.`n`")
@@ -801,6 +839,14 @@ func c11AllZero(t *c11Table, pairs [][2]string, r c11Row) bool {
 		return false
 	}
 	return true
+}
+
+func c11StripConds(nodes []*c11Node) []*c11Node {
+	var out []*c11Node
+	for _, nd := range nodes {
+		out = append(out, &c11Node{Rel: nd.Rel, Explicit: true, Kids: c11StripConds(nd.Kids)})
+	}
+	return out
 }
 
 func c11Uniq(a []int) []int {
@@ -906,6 +952,8 @@ func (f *c11Family) genOp(rng *rand.Rand, w c11World) c11Op {
 		} else {
 			op.Nodes = f.genNodes(rng, t, 0, false, maxN, false)
 		}
+		op.Twice = op.Shape == "single" && rng.Intn(2) == 0
+		op.Unscoped = rng.Intn(6) == 0
 	case x < 7: // joins (+ preloads)
 		op.Kind = "query"
 		op.Shape = []string{"slice", "ptrs", "single"}[rng.Intn(3)]
@@ -924,6 +972,7 @@ func (f *c11Family) genOp(rng *rand.Rand, w c11World) c11Op {
 			op.Cond = genC11Cond(rng, maxN, []string{"inline", "where"})
 		}
 		op.Count = rng.Intn(3) == 0
+		op.Unscoped = rng.Intn(8) == 0
 	}
 	return op
 }
